@@ -169,13 +169,16 @@ FinishCall(k, call) == IF k = "closure" THEN App(call, <<Num(9)>>) ELSE call
 CoreProgram(k, n, r, vals, ex) ==
   LET args == ArgExprs(vals) \o ex
       g == IF r THEN RestSpelling(k, n, r) ELSE CarCdrSpelling(k, n)
-  IN [forms |-> <<Define("f", CoreLambda(k, n, r)),
+  IN [forms |-> <<Define("helper", Quote(MkSym("outer-helper"))), Define("ev", Quote(MkSym("outer-ev"))),
+                  Define("f", CoreLambda(k, n, r)),
                   Define("g", g),
                   FinishCall(k, Call("f", args)),
                   FinishCall(k, Call("g", args)),
                   FinishCall(k, Call("apply", <<Var("f"), Call("list", args)>>)),
                   FinishCall(k, IF args = <<>> THEN Call("apply", <<Var("g")>>)
-                            ELSE Call("apply", <<Var("g"), args[1], Call("list", Tail(args))>>))>>,
+                            ELSE Call("apply", <<Var("g"), args[1], Call("list", Tail(args))>>)),
+                  \* internal definitions live in the frame of their call only: the top-level bindings of the same names are intact
+                  Call("list", <<Var("helper"), Var("ev")>>)>>,
       tag |-> <<"core", k, n, r>>]
 CoreFamily(maxn) ==
   UNION {UNION {UNION {UNION {
@@ -258,7 +261,11 @@ CtxSeqs(maxdepth) == UNION {[1..d -> TailCtxSet] : d \in 0..maxdepth}
 TailShapes == {"self", "mutual2", "mutual3", "param", "variadic", "closure"}
 
 \* the call: direct or through apply
-MkCall(viaApply, f, args) == IF viaApply THEN Call("apply", <<f, Call("list", args)>>) ELSE App(f, args)
+\* viaApply: 0 direct call, 1 (apply f (list a ...)), 2 (apply f a1 (list a2 ...)) - leading arguments before the list
+MkCall(viaApply, f, args) ==
+  CASE viaApply = 0 -> App(f, args)
+    [] viaApply = 1 -> Call("apply", <<f, Call("list", args)>>)
+    [] viaApply = 2 -> Call("apply", <<f, args[1], Call("list", Tail(args))>>)
 \* abs = TRUE: the counter toggles between -1 and -2 and the accumulator stays put, so a loop that
 \* never ends has finitely many machine states (the probe, which logs, is left out as well)
 DecA(abs, i) == IF abs THEN If3(Call("=", <<Var(i), Num(-1)>>), Num(-2), Num(-1)) ELSE Call("-", <<Var(i), Num(1)>>)
@@ -287,8 +294,8 @@ TailProgram(abs, shape, viaApply, cs, n) ==
            Call("ping", <<n, Num(0)>>)>>
     [] shape = "mutual3" ->
          <<Define("la", LoopLam(abs, <<"i", "acc">>, "", 1, IsZero, Var("acc"), W(MkCall(viaApply, Var("lb"), <<Dec("i"), Inc("acc")>>)))),
-           Define("lb", LoopLam(abs, <<"i", "acc">>, "", 2, IsZero, Var("acc"), MkCall(FALSE, Var("lc"), <<Dec("i"), Inc("acc")>>))),
-           Define("lc", LoopLam(abs, <<"i", "acc">>, "", 3, IsZero, Var("acc"), W(MkCall(FALSE, Var("la"), <<Dec("i"), Inc("acc")>>)))),
+           Define("lb", LoopLam(abs, <<"i", "acc">>, "", 2, IsZero, Var("acc"), MkCall(0, Var("lc"), <<Dec("i"), Inc("acc")>>))),
+           Define("lc", LoopLam(abs, <<"i", "acc">>, "", 3, IsZero, Var("acc"), W(MkCall(0, Var("la"), <<Dec("i"), Inc("acc")>>)))),
            Call("la", <<n, Num(0)>>)>>
     [] shape = "param" ->
          <<Define("loop", LoopLam(abs, <<"k", "i", "acc">>, "", 1, IsZero, Var("acc"),
@@ -308,9 +315,9 @@ TailProgram(abs, shape, viaApply, cs, n) ==
 \* terminating members (small N): the loop must return N
 TailFinFamily(maxdepth, counts) ==
   {[forms |-> TailProgram(FALSE, sh, va, cs, Num(n)), tag |-> <<"tail", sh, va, cs, n>>] :
-      sh \in TailShapes, va \in BOOLEAN, cs \in CtxSeqs(maxdepth), n \in counts}
+      sh \in TailShapes, va \in {0, 1, 2}, cs \in CtxSeqs(maxdepth), n \in counts}
 \* non-terminating members (abstract counter): the reachable state space is the loop itself
 TailInfFamily(maxdepth) ==
   {[forms |-> TailProgram(TRUE, sh, va, cs, Num(-1)), tag |-> <<"tailinf", sh, va, cs>>] :
-      sh \in TailShapes, va \in BOOLEAN, cs \in CtxSeqs(maxdepth)}
+      sh \in TailShapes, va \in {0, 1, 2}, cs \in CtxSeqs(maxdepth)}
 =============================================================================
